@@ -28,7 +28,9 @@ def _raiser(kind, msg):
     return f
 
 
-CONDS = ["c", "c == True", "not (not c)", "undefined_name", "1/0", "boom()", "   ", None, "c and hg == 42"]
+CONDS = ["c", "c == True", "not (not c)", "undefined_name", "1/0", "boom()", "   ", None, "c and hg == 42",
+         # conditions that FAIL on some hits and hold on others: `late` is bound only on the hits where c is true
+         "late > 0", "1 / int(c) == 1"]
 
 
 def _cond_truth(ci, c):
@@ -46,7 +48,7 @@ def cond_gate(ci: int, c1: bool, c2: bool, c3: bool, fc: int, bk: int, msg: str,
     A conditional tracepoint over three hits: collects exactly on the hits whose condition is true, within fire_count;
     rejected hits (false / failing) use no budget. The failing condition raises an exception whose MESSAGE is symbolic.
     The gated action is a snapshot (ak 0), a log line (1), a metric (2) or a span (3).
-    PRE: 0 <= ci <= 8 and 0 <= bk <= 3 and len(msg) <= 4 and 0 <= ak <= 3
+    PRE: 0 <= ci <= 10 and 0 <= bk <= 3 and len(msg) <= 4 and 0 <= ak <= 3
     POST: _ == ""
     """
     world.begin_path()
@@ -73,7 +75,11 @@ def cond_gate(ci: int, c1: bool, c2: bool, c3: bool, fc: int, bk: int, msg: str,
     for i, c in enumerate(hits):
         w.clock.t = 10 + i
         before = len(w.push.snapshots) + len([e for e in log if e[0] in ("log", "counter", "open")])
-        frame = FakeFrame("/app/f.py", "fn", 7, {"c": world.realize(c), "boom": _raiser(bk, msg)}, {"hg": 42})
+        cv = world.realize(c)
+        f_locals = {"c": cv, "boom": _raiser(bk, msg)}
+        if cv:
+            f_locals["late"] = 1
+        frame = FakeFrame("/app/f.py", "fn", 7, f_locals, {"hg": 42})
         w.event(frame, "line", None)
         if len(w.push.snapshots) + len([e for e in log if e[0] in ("log", "counter", "open")]) != before:
             fired.append(i)
@@ -284,11 +290,11 @@ MUTANTS = {"agent_globals": _mut_agent_globals, "record_before_condition": _mut_
            "failed_condition_by_message": _mut_failed_condition_by_message}
 
 CONDITIONS = [
-    dict(fn="cond_gate", cubes=["ci == %d and bk == %d and ak == 0" % (i, b) for i in range(9) for b in ((0, 1, 2, 3) if i == 5 else (0,))] +
+    dict(fn="cond_gate", cubes=["ci == %d and bk == %d and ak == 0" % (i, b) for i in range(11) for b in ((0, 1, 2, 3) if i == 5 else (0,))] +
                               ["ci == %d and bk == 0 and ak == %d" % (i, a) for i in (0, 3, 5, 7) for a in (1, 2, 3)],
-         twins=["reach", "mutant:record_before_condition@ci == 0 and bk == 0 and ak == 0", "mutant:failed_condition_by_message@ci == 5 and bk == 0 and ak == 0",
+         twins=["reach", "mutant:record_before_condition@ci == 0 and bk == 0 and ak == 0", "mutant:failed_condition_by_message@ci == 5 and bk == 0 and ak == 0 and len(msg) <= 1 and fc == -1 and not c1 and not c2 and not c3",
                 "mutant:agent_globals@ci == 8 and bk == 0 and ak == 0"],
-         bounds="3 hits, per-hit boolean local symbolic, fire_count unbounded int, 9 condition flavours incl. failing ones whose "
+         bounds="3 hits, per-hit boolean local symbolic, fire_count unbounded int, 11 condition flavours incl. always-failing ones and two that fail on some hits and hold on others; a failing one's "
                 "exception message is a free string <= 4 chars, 4 exception classes (Exception, BaseException subclass, KeyboardInterrupt, SystemExit); the gated action is a snapshot, a log line, a metric or a span"),
     dict(fn="scope", cubes=["ni == %d and site == %d" % (n, s) for n in range(13) for s in range(4)],
          twins=["reach", "mutant:agent_globals@ni == 1 and site == 0", "mutant:agent_globals@ni == 3 and site == 3"],
